@@ -660,7 +660,37 @@ var auditedErrDrops = map[string]string{
 	"generator.(*generator).getOverlappingStructDefinition|method.(*Index).Get": "context errors are irrelevant for the question whether an overlapping definition exists",
 	"generator.(*generator).createSubMethod|method.(*Index).Register":           "cannot overlap: callExisting found no method and no context error for this signature immediately before",
 	"config.resolveOutputPackage|config.resolvePackage":                         "a filepath.Rel failure leaves the explicitly configured output:package in force",
+	"generator.(*generator).hasDeclared|method.(*Index).Get":                    "an index error makes the answer `declared`, which sends generator.Assign on to callExisting where the same Get reports it (sub-fact re-verified by C11.R9: the helper asks both indexes and an extend hit or error answers true)",
 	"generator.(*generator).buildMethod|method.(*Index).Get":                    "buildMethod tests the definition first and turns a remaining error into a builder.Error in the next branch",
+}
+
+// auditedDropFacts: sub-facts re-verified on every run for audited drops whose
+// justification depends on the shape of the dropping function.
+var auditedDropFacts = map[string]func(p *Prog) string{
+	"generator.(*generator).hasDeclared|method.(*Index).Get": func(p *Prog) string {
+		fi := p.Func("generator.(*generator).hasDeclared")
+		if fi == nil {
+			return "generator.hasDeclared not found"
+		}
+		why, ok := declaredLookupHelpers(p)[fi.Obj]
+		if !ok {
+			return "hasDeclared no longer asks both the extend index and the method index (with Explicit)"
+		}
+		return why
+	},
+}
+
+func auditedDrop(p *Prog, akey string) (string, bool, string) {
+	why, ok := auditedErrDrops[akey]
+	if !ok {
+		return "", false, ""
+	}
+	if f, has := auditedDropFacts[akey]; has {
+		if msg := f(p); msg != "" {
+			return why, true, msg
+		}
+	}
+	return why, true, ""
 }
 
 func c13R3(p *Prog, r *Report) {
@@ -694,7 +724,11 @@ func c13R3(p *Prog, r *Report) {
 			site := fmt.Sprintf("%s/call %s#%d", fi.Name(), name, cnt[name])
 			pos := p.PosStr(ec.call.Pos())
 			akey := p.anchorFor(fi, fnPartsOf(append(mapKeys(auditedErrDrops), mapKeys(sanctionedEdges)...))) + "|" + name
-			if why, ok := auditedErrDrops[akey]; ok {
+			if why, ok, broken := auditedDrop(p, akey); ok {
+				if broken != "" {
+					r.Bad(site, pos, "audited drop whose sub-fact no longer holds: "+broken)
+					continue
+				}
 				r.OK(site, pos, "audited drop: "+why)
 				r.Tables = append(r.Tables, "C13.R3 audited drop "+akey+" — "+why)
 				continue
@@ -1286,7 +1320,14 @@ func dirtyObligations(p *Prog, r *Report) {
 			case "generator.setupGenerator":
 				r.OK(site, pos, "initial marking of the declared methods (each is built at least once)")
 			default:
-				r.Bad(site, pos, "unaudited place that re-marks a method dirty")
+				// a helper that re-marks methods is fine when each of its calls sits next to a
+				// monotone signature change (ReturnError false→true, a new context type): the
+				// number of such changes is bounded, so is the number of re-markings
+				if why := remarkHelperTied(p, fi); why == "" {
+					r.OK(site, pos, "re-marking helper: every call of "+fi.Name()+" is in the block that flips ReturnError to true or inserts a new context type (bounded number of signature changes)")
+				} else {
+					r.Bad(site, pos, "unaudited place that re-marks a method dirty: "+why)
+				}
 			}
 		})
 	}
@@ -1297,6 +1338,52 @@ func dirtyObligations(p *Prog, r *Report) {
 	if fi := p.Func("generator.(*generator).buildDirtyMethods"); fi == nil {
 		r.Unresolved("generator.(*generator).buildDirtyMethods")
 	}
+}
+
+// remarkHelperTied: every call of the helper fi is made from generator.ReturnError or
+// requireContext, in the basic block that performs the monotone change.
+func remarkHelperTied(p *Prog, fi *FuncInfo) string {
+	n := 0
+	for _, caller := range p.Funcs {
+		sf := p.SSAFunc(caller)
+		if sf == nil {
+			continue
+		}
+		for _, c := range callsIn(sf, true, func(o *types.Func) bool { return o.Origin() == fi.Obj.Origin() }) {
+			n++
+			name := caller.Name()
+			if name != "generator.(*generator).ReturnError" && name != "generator.(*generator).requireContext" {
+				return "called from " + name
+			}
+			tied := false
+			for _, x := range c.(ssa.Instruction).Block().Instrs {
+				switch y := x.(type) {
+				case *ssa.Store:
+					if f2, ok := y.Addr.(*ssa.FieldAddr); ok && fieldName(f2) == "ReturnError" {
+						if k2, ok := y.Val.(*ssa.Const); ok && k2.Value != nil && constant.BoolVal(k2.Value) {
+							tied = true
+						}
+					}
+				case *ssa.MapUpdate:
+					if ld, ok := y.Map.(*ssa.UnOp); ok {
+						if f2, ok := ld.X.(*ssa.FieldAddr); ok && fieldName(f2) == "Context" {
+							tied = true
+						}
+					}
+				}
+			}
+			if !tied {
+				return "its call in " + name + " is not next to a signature change"
+			}
+		}
+	}
+	if _, vals := p.refSites(fi.Obj); len(vals) > 0 {
+		return "used as a function value"
+	}
+	if n == 0 {
+		return "never called"
+	}
+	return ""
 }
 
 // returnsOnlyTrueFrom enumerates acyclic paths from the store to returns and
